@@ -7,13 +7,13 @@ VERIF = os.path.dirname(os.path.dirname(os.path.abspath(__file__)))
 PROPS = os.path.join(VERIF, "lean", "PlushProofs", "Props")
 
 CONF = {
- "C01": {"gen": ["WriteCases"], "streams": [("render-gen", "full")],
+ "C01": {"gen": ["WriteCases"], "streams": [("render-gen", "full"), ("render-struct", "full")],
          "assume": ["fmt.Stringer values, named string types and time formats are outside the property's wording and outside the plumbing grammar"]},
  "C02": {"gen": ["CharClasses"], "streams": [("lex-text", "full"), ("parse-text", "full"), ("render-gen", "full")], "assume": []},
  "C03": {"gen": ["ParseFns", "Keywords", "CharClasses", "Precedences"],
-         "streams": [("parse-tok", "kind"), ("parse-text", "kind"), ("lex-text", "kind")],
+         "streams": [("parse-tok", "kind"), ("parse-text", "kind"), ("lex-text", "kind"), ("lex-nul", "kind")],
          "assume": ["Go stack exhaustion on pathologically deep nesting is outside the model (nesting to depth 256 is exercised by the oracle)"]},
- "C04": {"gen": ["Operators"], "streams": [("render-gen", "class")],
+ "C04": {"gen": ["Operators", "EvalDispatch"], "streams": [("render-gen", "class"), ("render-struct", "class")],
          "assume": ["struct / method / func values of the Go universe are outside the model: their matrices are decided by the oracle only",
                     "self-referential data and unbounded recursion exhaust the Go stack (fatal, not a panic): not generated"]},
  "C05": {"gen": ["Operators"], "streams": [("render-gen", "full")], "assume": []},
@@ -26,7 +26,7 @@ CONF = {
  "C10": {"gen": ["HelperKeys"], "streams": [("ctx-hist", "full")], "assume": []},
  "C11": {"gen": [], "streams": [("parse-tok", "full"), ("render-struct", "full")],
          "assume": ["PARTIAL: struct fields and pointers are modelled (Val.struct / Val.ptr, stream render-struct); methods, embedded structs and the index-then-member rebinding are reflected Go behaviour outside the model: for them navigation is decided by the oracle (self-describing data)"]},
- "C12": {"gen": [], "streams": [("render-gen", "full")], "assume": ["the signature family of the model is the harness' closed helper family; the full signature product is enumerated by the oracle"]},
+ "C12": {"gen": [], "streams": [("render-gen", "full"), ("render-struct", "full")], "assume": ["the signature family of the model is the harness' closed helper family; the full signature product is enumerated by the oracle"]},
  "C13": {"gen": ["ConcFacts"], "streams": [("render-gen", "full")],
          "assume": ["PARTIAL by nature: Go's map-order randomisation is quantified over (any permutation) in the model and sampled (r repetitions) by the oracle"]},
  "C14": {"gen": ["ConcFacts"], "streams": [],
@@ -36,7 +36,7 @@ CONF = {
          "assume": ["known findings: a statement that starts on a later line than its tag opener is reported with the statement's line"]},
  "C16": {"gen": [], "streams": [("render-gen", "full")], "assume": []},
  "C17": {"gen": [], "streams": [("render-gen", "full")], "assume": ["jsEscape of non-ASCII text depends on unicode.IsPrint (not modelled; unsupported in the model)"]},
- "C18": {"gen": ["CharClasses", "Keywords"], "streams": [("lex-tok", "full"), ("parse-tok", "full")], "assume": []},
+ "C18": {"gen": ["CharClasses", "Keywords"], "streams": [("lex-tok", "full"), ("parse-tok", "full"), ("lex-nul", "full")], "assume": []},
  "C19": {"gen": ["Iterators", "HelperKeys"], "streams": [("render-gen", "full")], "assume": ["groupBy's reflective slicing is modelled on lists (tied by render-gen and the oracle)"]},
  "C20": {"gen": ["HelperKeys"], "streams": [("render-gen", "full")],
          "assume": ["text/template.HTMLEscape / JSEscape, unicode/utf8 and encoding/json are MODELLED (standard library), tied by correspondence and the oracle only",
